@@ -372,6 +372,9 @@ class Indentation(afmformats.AFMForceDistance):
         if regressor.lower() == "none":
             rt = -1
         elif (self._rating is None or
+              # (without a fit there is no hash that identifies the
+              # state of the curve: never reuse a rating then)
+              curhash == "none" or
               self._rating[0] != curhash or
               self._rating[1] != regressor or
               self._rating[2] != training_set or
